@@ -1,6 +1,7 @@
 """C08 — lexicon specifiers and language codes select exactly the documented lexicons (structural clauses)."""
 from __future__ import annotations
 import ast
+from ..pat import Frag
 from ..src import norm, walk_no_nested, AnalysisError
 from ..pyutil import parents
 
@@ -134,7 +135,7 @@ def r3_match_shape(ctx, res):
             res.find(key + ':table', sites[0].loc, 'find_lexicons does not select from lexicons')
         if v.params[0] == 'named' and set(v.params[1]) != {'specifier', 'language'}:
             res.find(key + ':params', sites[0].loc, f'find_lexicons binds {sorted(v.params[1])}')
-    src = norm(f.node)
+    src = Frag(f.node)
     key = 'colon-star-appended'
     ifs = [n for n in walk_no_nested(f.node) if isinstance(n, ast.If) and norm(n.test) == "':' not in specifier"]
     res.inst(key, f.module.loc(f.node), "if ':' not in specifier: specifier += ':*'")
@@ -178,7 +179,7 @@ def r4_error_vs_empty(ctx, res):
     if tries:
         res.find(key, wi.module.loc(wi.node), 'Wordnet.__init__ catches exceptions: a request matching no lexicon may no longer be an error')
     key = 'wordnet-default-request'
-    s = norm(wi.node)
+    s = Frag(wi.node)
     res.inst(key, wi.module.loc(wi.node), "find_lexicons(lexicon or '*', lang=lang)")
     dm = norm(ast.parse('self._default_mode = (not lexicon and not lang)').body[0])
     if "find_lexicons(lexicon or '*', lang=lang)" not in s or dm not in s:
